@@ -173,7 +173,106 @@ def extract_args(fn):
     return done
 
 
-TRANSFORMS = {"rename": lambda fn, c: rename_locals(fn), "rettemp": lambda fn, c: ret_temp(fn), "kwargs": lambda fn, c: to_keywords(fn, c),
+def hoist_lookups(fn):
+    """An attribute chain rooted at a parameter (`settings.smoothing`, `self.frequency`, `record.ns.dt_in_seconds`) that is read at least
+    twice, whose attributes are not stored to in the function and whose root is not rebound, is read once into a new local placed right
+    before the first top-level statement that uses it (only when that statement is not preceded by a call that receives the root)."""
+    params = [a.arg for a in fn.args.args + fn.args.kwonlyargs]
+    stored_attrs = {x.attr for x in ast.walk(fn) if isinstance(x, ast.Attribute) and isinstance(x.ctx, (ast.Store, ast.Del))}
+    stored_attrs |= {x.value.attr for x in ast.walk(fn) if isinstance(x, ast.Subscript) and isinstance(x.ctx, (ast.Store, ast.Del)) and isinstance(x.value, ast.Attribute)}
+    rebound = {x.id for x in ast.walk(fn) if isinstance(x, ast.Name) and isinstance(x.ctx, (ast.Store, ast.Del))}
+    if any(isinstance(x, (ast.Lambda, ast.FunctionDef, ast.ListComp, ast.GeneratorExp, ast.DictComp, ast.SetComp, ast.Try, ast.With)) and x is not fn for x in ast.walk(fn)):
+        return False
+    def chain(e):
+        attrs = []
+        while isinstance(e, ast.Attribute):
+            attrs.append(e.attr); e = e.value
+        return (e.id, tuple(attrs[::-1])) if isinstance(e, ast.Name) and attrs else None
+    counts = {}
+    for x in ast.walk(fn):
+        if isinstance(x, ast.Attribute) and isinstance(x.ctx, ast.Load):
+            c = chain(x)
+            if c and c[0] in params and c[0] not in rebound and not (set(c[1]) & stored_attrs):
+                counts[c] = counts.get(c, 0) + 1
+    # only outermost chains that are not the callee of a method call
+    callees = {id(c.func) for c in ast.walk(fn) if isinstance(c, ast.Call)}
+    cands = [c for c, k in counts.items() if k >= 2 and not any(c2 != c and c2[0] == c[0] and c2[1][:len(c[1])] == c[1] and counts[c2] >= counts[c] for c2 in counts)]
+    if not cands:
+        return False
+    c = sorted(cands)[0]
+    name = "_h_" + "_".join(c[1])
+    first = None
+    for i, st in enumerate(fn.body):
+        if any(isinstance(x, ast.Attribute) and chain(x) == c for x in ast.walk(st)):
+            first = i
+            break
+    if first is None or any(isinstance(x, ast.Call) for st in fn.body[:first] for x in ast.walk(st) if any(isinstance(z, ast.Name) and z.id == c[0] for z in ast.walk(x))):
+        return False
+    if any(isinstance(x, ast.Call) and any(isinstance(z, ast.Name) and z.id == c[0] for a in list(x.args) + [k.value for k in x.keywords] for z in ast.walk(a))
+           and not (isinstance(x.func, ast.Attribute) and chain(x.func) and chain(x.func)[0] == c[0]) for x in ast.walk(fn)):
+        return False        # the root is handed to some call: that call might change the attribute
+    if isinstance(fn.body[first], (ast.For, ast.While, ast.If)):
+        pass
+    class R(ast.NodeTransformer):
+        def visit_Attribute(self, node):
+            if isinstance(node.ctx, ast.Load) and chain(node) == c and id(node) not in callees:
+                return ast.copy_location(ast.Name(id=name, ctx=ast.Load()), node)
+            return self.generic_visit(node)
+    src = None
+    for x in ast.walk(fn):
+        if isinstance(x, ast.Attribute) and chain(x) == c:
+            src = copy.deepcopy(x); break
+    for i in range(first, len(fn.body)):
+        fn.body[i] = R().visit(fn.body[i])
+    fn.body.insert(first, ast.Assign(targets=[ast.Name(id=name, ctx=ast.Store())], value=src))
+    ast.fix_missing_locations(fn)
+    return True
+
+
+def add_logging(fn):
+    """`logger.debug(...)` as the first statement after the docstring, and `assert True` before every return."""
+    i = 1 if fn.body and isinstance(fn.body[0], ast.Expr) and isinstance(fn.body[0].value, ast.Constant) else 0
+    call = ast.Expr(value=ast.Call(func=ast.Attribute(value=ast.Name(id="logger", ctx=ast.Load()), attr="debug", ctx=ast.Load()),
+                                   args=[ast.Constant(value="entering %s"), ast.Constant(value=fn.name)], keywords=[]))
+    fn.body.insert(i, call)
+    for node in ast.walk(fn):
+        for fld in ("body", "orelse", "finalbody"):
+            block = getattr(node, fld, None)
+            if isinstance(block, list) and block and isinstance(block[0], ast.stmt):
+                j = 0
+                while j < len(block):
+                    if isinstance(block[j], ast.Return) and node is not fn or (isinstance(block[j], ast.Return) and node is fn and j > i):
+                        block.insert(j, ast.Assert(test=ast.Constant(value=True), msg=None))
+                        j += 1
+                    j += 1
+    ast.fix_missing_locations(fn)
+    return True
+
+
+def np_methods(fn):
+    """`np.argmin(x)` -> `x.argmin()` for name / attribute receivers, `np.abs` -> `np.absolute`, `np.conjugate(x)` -> `x.conj()`."""
+    done = False
+    class T(ast.NodeTransformer):
+        def visit_Call(self, node):
+            nonlocal done
+            self.generic_visit(node)
+            f = node.func
+            if isinstance(f, ast.Attribute) and isinstance(f.value, ast.Name) and f.value.id == "np":
+                if f.attr == "abs":
+                    f.attr = "absolute"; done = True
+                elif f.attr in ("argmin", "argmax") and len(node.args) == 1 and not node.keywords and isinstance(node.args[0], (ast.Name, ast.Attribute, ast.Call)):
+                    done = True
+                    return ast.copy_location(ast.Call(func=ast.Attribute(value=node.args[0], attr=f.attr, ctx=ast.Load()), args=[], keywords=[]), node)
+                elif f.attr == "conjugate" and len(node.args) == 1:
+                    done = True
+                    return ast.copy_location(ast.Call(func=ast.Attribute(value=node.args[0], attr="conj", ctx=ast.Load()), args=[], keywords=[]), node)
+            return node
+    T().visit(fn)
+    ast.fix_missing_locations(fn)
+    return done
+
+
+TRANSFORMS = {"hoist": lambda fn, c: hoist_lookups(fn), "logging": lambda fn, c: add_logging(fn), "npmethod": lambda fn, c: np_methods(fn), "rename": lambda fn, c: rename_locals(fn), "rettemp": lambda fn, c: ret_temp(fn), "kwargs": lambda fn, c: to_keywords(fn, c),
               "ifswap": lambda fn, c: if_swap(fn), "cmpswap": lambda fn, c: cmp_swap(fn), "extract": lambda fn, c: extract_args(fn)}
 
 
